@@ -508,6 +508,7 @@ def check_property(pid, tier='quick', seed=0, witness_hook=None):
     fn_list = []
     obligations = 0
     discharged = 0
+    known_excluded = 0
     trusted = []
     samples = []
     solver_ms = 0
@@ -545,16 +546,29 @@ def check_property(pid, tier='quick', seed=0, witness_hook=None):
             mode = fb.get('mode')
             is_support = (mode in ('proof', 'spec')) or (fname not in fn_by_name and short not in [x['name'] for x in r.meta['fns']])
             if is_exec_tagged or is_support:
-                obligations += cnt
                 ok = fb.get('success', True) is not False
                 if ok:
+                    obligations += cnt
                     discharged += cnt
                 else:
-                    # Verus names each failing obligation; the others of the function were discharged
-                    nfail = len(set((f['obligation'], str(f.get('site'))) for f in r.failures
-                                    if f.get('site_fn') and f['site_fn'].endswith('::' + short)
-                                    and f['class'] in ('labelled', 'builtin', 'undecided', 'proof-step')))
-                    discharged += max(0, cnt - max(1, nfail))
+                    # Verus names each failing obligation; the others of the function were discharged.  An obligation
+                    # recorded in known_findings.json (for whichever property owns it) is reported separately and is
+                    # not part of this run's obligations/discharged pair.
+                    fails = {}
+                    for f in r.failures:
+                        if f.get('site_fn') and f['site_fn'].endswith('::' + short) and \
+                                f['class'] in ('labelled', 'builtin', 'undecided', 'proof-step'):
+                            fails[(f['obligation'], str(f.get('site')))] = f
+                    nknown = 0
+                    for f in fails.values():
+                        if any(match_known(f, q, known) for q in (f.get('props') or [])):
+                            nknown += 1
+                    nother = max(0, len(fails) - nknown)
+                    if not fails:
+                        nother = 1
+                    known_excluded += nknown
+                    obligations += max(0, cnt - nknown)
+                    discharged += max(0, cnt - nknown - nother)
         for f in tf:
             fb = None
             for k, v in fn_by_name.items():
@@ -663,6 +677,7 @@ def check_property(pid, tier='quick', seed=0, witness_hook=None):
                         'all_refuted': not any('vacuity alarm' in u for u in undecided)},
             'samples': samples[:12],
             'known_findings_hit': [k.get('what') for k, f in known_hits],
+            'known_finding_obligations_excluded_from_counts': known_excluded,
             'violations': vio_out,
             'undecided': undecided,
             'extra_runs': extra_runs,
